@@ -417,8 +417,19 @@ export function noUndeclared(prog, t, v, fuel = 64, opts = {}) {
       return N(recordToObject(prog, t), v);
     case "object":
       return noUndeclaredObjects(prog, [t], v, fuel, opts);
-    case "union":
+    case "union": {
+      if (opts.unionMerge) {
+        // parse() returns the merge of the projections of all matching branches: a key is declared if
+        // some matching branch declares it
+        const verdicts = t.m.map((x) => member(prog, x, v));
+        if (verdicts.some((x) => x === DC)) return DC;
+        const accepting = t.m.filter((_, i) => verdicts[i] === IN);
+        if (accepting.length === 0) return OUT;
+        if (accepting.length === 1) return N(accepting[0], v);
+        return N({ k: "inter", m: accepting }, v);
+      }
       return anyOf(t.m.map((x) => (member(prog, x, v) === IN ? N(x, v) : member(prog, x, v) === DC ? DC : OUT)));
+    }
     case "inter": {
       // distribute over unions, merge object members
       const alts = distribute(prog, t.m);
